@@ -63,6 +63,10 @@ func (s *OpenAPI3Exporter) GenerateOpenAPI3(app *syslwrapper.App) (*openapi3.T, 
 	spec.Info = &openapi3.Info{}
 	spec.Info.Title = app.Name
 	spec.Info.Version = app.Attributes["version"]
+	// info.version is required: an application without a version attribute gets the one the Swagger exporter gives it
+	if spec.Info.Version == "" {
+		spec.Info.Version = "0.0.0"
+	}
 	spec.Info.Description = app.Attributes["description"]
 	spec.Info.Contact = &openapi3.Contact{}
 	spec.Info.Contact.Name = app.Attributes["contact.name"]
